@@ -13,6 +13,7 @@ import Bng.Spec.C04
 -/
 namespace Bng.Proof.PppoeMonitor
 open Bng Bng.PppoeServer Bng.PppoeMon AMap
+open Bng.Spec.C04 (lookup_filter_key lookup_sweep)
 
 /-! ### counting sessions that hold an address -/
 
@@ -67,26 +68,6 @@ theorem length_insert_of_none {ν : Type} {m : AMap Nat ν} {k : Nat} {v : ν} (
     (AMap.insert m k v).length = m.length + 1 := by
   unfold AMap.insert
   rw [List.length_cons, length_erase_of_none h]
-
-theorem lookup_filter_key {ν : Type} (f : Nat → Bool) (m : AMap Nat ν) (k : Nat) :
-    lookup (m.filter (fun p => f p.1)) k = if f k then lookup m k else none := by
-  induction m with
-  | nil => simp [lookup]
-  | cons p rest ih =>
-    obtain ⟨a, b⟩ := p
-    rw [List.filter_cons]
-    by_cases hf : f a = true
-    · simp only [hf, if_true]
-      rw [lookup_cons, lookup_cons, ih]
-      by_cases e : a = k
-      · subst e; simp [hf]
-      · simp [e]
-    · have hf' : f a = false := by simpa using hf
-      simp only [hf', Bool.false_eq_true, if_false]
-      rw [lookup_cons, ih]
-      by_cases e : a = k
-      · subst e; simp [hf']
-      · simp [e]
 
 /-! ### the sorted session list is a permutation of the table's values -/
 
@@ -211,7 +192,7 @@ theorem finish {s' : Srv} {mn : Mon} {i : In} {outs : List Out}
         lookup (owner1 mn i (obsOf s' outs)) sid = some x'.mac)
     (hauth1 : ∀ sid x', lookup s'.sessions sid = some x' → x'.everAuthed = true →
         sid ∈ auth1 mn i (obsOf s' outs))
-    (hcnt : s'.alloc.length = cnt s'.sessions + (mn.stranded + sweptNow mn i))
+    (hcnt : s'.alloc.length = cnt s'.sessions + (mn.stranded + sweptNow mn (obsOf s' outs) i))
     (hcons : s'.avail.length + s'.alloc.length = mn.total)
     (hrad : mn.radius = s'.radius)
     (hsent : ∀ t ∈ (obsOf s' outs).sent, t.ipcpAns = true → t.sid ∈ auth1 mn i (obsOf s' outs))
@@ -234,7 +215,7 @@ theorem finish {s' : Srv} {mn : Mon} {i : In} {outs : List Out}
       refine ⟨hauth1 sid x' hl he, ?_⟩
       show (((sortedSess s').map toSeen).map (·.sid)).contains sid = true
       rw [hlive sid, hl]; rfl
-    · show s'.alloc.length = cnt s'.sessions + (mn.stranded + sweptNow mn i)
+    · show s'.alloc.length = cnt s'.sessions + (mn.stranded + sweptNow mn (obsOf s' outs) i)
       exact hcnt
   · -- verdicts
     have h1 : v1 (auth1 mn i (obsOf s' outs)) (obsOf s' outs) = [] := by
@@ -273,7 +254,7 @@ theorem finish {s' : Srv} {mn : Mon} {i : In} {outs : List Out}
     have e1 : (obsOf s' outs).alloc = s'.alloc.length := rfl
     have e2 : (obsOf s' outs).free = s'.avail.length := rfl
     rw [e1, e2] at hv'
-    have c1 : ¬ (s'.alloc.length ≠ cnt s'.sessions + (mn.stranded + sweptNow mn i)) := by
+    have c1 : ¬ (s'.alloc.length ≠ cnt s'.sessions + (mn.stranded + sweptNow mn (obsOf s' outs) i)) := by
       intro h; exact h hcnt
     have c2 : ¬ (mn.total ≠ 0 ∧ s'.avail.length + s'.alloc.length ≠ mn.total) := by
       intro h; exact h.2 hcons
@@ -542,7 +523,7 @@ theorem v3_nil {s s' : Srv} {mn : Mon} {i : In} {outs : List Out} (hR : Rel s mn
 
 /-- an operation that leaves the server state alone -/
 theorem same_state {s : Srv} {mn : Mon} {i : In} {outs : List Out} (hW : W s) (hR : Rel s mn)
-    (hstep : step s i = (s, outs)) (hns : sweptNow mn i = 0)
+    (hstep : step s i = (s, outs)) (hns : ∀ o, sweptNow mn o i = 0)
     (hnp : ∀ t ∈ outs.filterMap toSent, t.pads = false)
     (hans : ∀ t ∈ outs.filterMap toSent, t.ipcpAns = true →
       ∃ x, lookup s.sessions t.sid = some x ∧ x.authed = true) :
@@ -555,7 +536,7 @@ theorem same_state {s : Srv} {mn : Mon} {i : In} {outs : List Out} (hW : W s) (h
     apply auth0_sub_auth1
     rw [auth0_nopads mn _ hnp']
     exact hR.auth sid x' hl he
-  · rw [hns]; exact hR.count
+  · rw [hns _]; exact hR.count
   · exact hR.cons
   · exact hR.rad
   · intro t ht ha
@@ -594,7 +575,7 @@ theorem remove_core {s s1 : Srv} {mn : Mon} {i : In} {sid : Nat} {x : Sess} {out
     (hcons : s1.avail.length + s1.alloc.length = s.avail.length + s.alloc.length)
     (hlen : s1.alloc.length + (if (lookup s.alloc x.serial).isSome then 1 else 0) = s.alloc.length)
     (hperm : (s1.avail ++ vals s1.alloc).Perm (s.avail ++ vals s.alloc))
-    (hns : sweptNow mn i = 0)
+    (hns : ∀ o, sweptNow mn o i = 0)
     (hnp : ∀ t ∈ outs.filterMap toSent, t.pads = false ∧ t.ipcpAns = false) : StepOK s mn i := by
   have hpnd := hperm.symm.nodup hW.pnd
   have hother : ∀ k', k' ≠ x.serial → lookup s1.alloc k' = lookup s.alloc k' := by
@@ -623,7 +604,7 @@ theorem remove_core {s s1 : Srv} {mn : Mon} {i : In} {sid : Nat} {x : Sess} {out
     rw [auth0_nopads mn _ hnp']
     exact hR.auth k z (look k z h).2 he
   · show s1.alloc.length = cnt (AMap.erase s1.sessions sid) + _
-    rw [hns, hs]
+    rw [hns _, hs]
     have h1 := cnt_erase_of_lookup hW.nd hx
     have h2 := hW.ipa sid x hx
     have h3 := hR.count
@@ -651,7 +632,7 @@ theorem update_core {s s1 : Srv} {mn : Mon} {i : In} {sid : Nat} {x y : Sess} {o
     (hid : y.id = x.id) (hmac : y.mac = x.mac) (hser : y.serial = x.serial)
     (hip : y.ip = lookup s1.alloc x.serial)
     (hauth : y.everAuthed = true → sid ∈ auth1 mn i (obsOf (setSess s1 sid y) outs))
-    (hns : sweptNow mn i = 0)
+    (hns : ∀ o, sweptNow mn o i = 0)
     (hnp : ∀ t ∈ outs.filterMap toSent, t.pads = false ∧ t.ipcpAns = false) : StepOK s mn i := by
   have hbnd : ∀ k a, lookup s1.alloc k = some a → k < s1.serialCtr := by
     intro k a h
@@ -685,7 +666,7 @@ theorem update_core {s s1 : Srv} {mn : Mon} {i : In} {sid : Nat} {x y : Sess} {o
       rw [auth0_nopads mn _ hnp']
       exact hR.auth k z h' he
   · show s1.alloc.length = cnt (AMap.insert s1.sessions sid y) + _
-    rw [hns, hs]
+    rw [hns _, hs]
     have h1 := cnt_erase_of_lookup hW.nd hx
     have h3 := hR.count
     unfold AMap.insert
@@ -730,7 +711,7 @@ def padrState (s : Srv) (id nx : Nat) (x0 : Sess) : Srv :=
   { s with sessions := AMap.insert s.sessions id x0, nextID := nx, serialCtr := s.serialCtr + 1 }
 
 theorem step_ok {s : Srv} {mn : Mon} (hW : W s) (hR : Rel s mn) (i : In) : StepOK s mn i := by
-  have same : ∀ outs, step s i = (s, outs) → sweptNow mn i = 0 →
+  have same : ∀ outs, step s i = (s, outs) → (∀ o, sweptNow mn o i = 0) →
       (∀ t ∈ outs.filterMap toSent, t.pads = false) →
       (∀ t ∈ outs.filterMap toSent, t.ipcpAns = true → ∃ x, lookup s.sessions t.sid = some x ∧ x.authed = true) →
       StepOK s mn i := by
@@ -738,9 +719,9 @@ theorem step_ok {s : Srv} {mn : Mon} (hW : W s) (hR : Rel s mn) (i : In) : StepO
     exact conclude hstep hW (same_state hW hR hstep hns hnp hans)
   cases i with
   | padi m =>
-    exact same [.pado m] rfl rfl (by simp [toSent]) (by simp [toSent])
+    exact same [.pado m] rfl (fun _ => rfl) (by simp [toSent]) (by simp [toSent])
   | ip m sid =>
-    exact same [] rfl rfl (by simp) (by simp)
+    exact same [] rfl (fun _ => rfl) (by simp) (by simp)
   | padr m cookie =>
     by_cases hck : cookie = true
     · cases hid : newId s with
@@ -823,27 +804,45 @@ theorem step_ok {s : Srv} {mn : Mon} (hW : W s) (hR : Rel s mn) (i : In) : StepO
           simp [obsOf, toSent, plainSent] at ht
           rcases ht with rfl | rfl <;> simp at ha'
         · exact v3_nil hR hstep
-      | full => exact same [] (by simp only [step, hck, hid]; rfl) rfl (by simp) (by simp)
-      | spin => exact same [] (by simp only [step, hck, hid]; rfl) rfl (by simp) (by simp)
+      | full => exact same [] (by simp only [step, hck, hid]; rfl) (fun _ => rfl) (by simp) (by simp)
+      | spin => exact same [] (by simp only [step, hck, hid]; rfl) (fun _ => rfl) (by simp) (by simp)
     · have hck' : cookie = false := by simpa using hck
-      exact same [] (by simp [step, hck']) rfl (by simp) (by simp)
-  | sweep =>
-    have hstep : step s .sweep = ({ s with sessions := [] }, []) := rfl
-    have hW' : W { s with sessions := [] } := by
-      refine ⟨nodupKeys_nil, ?_, inv_of_step hW hstep, hW.nda, ?_, hW.pnd, ?_, ?_, hW.bnd, hW.nx⟩
-      · intro k z h; simp [lookup] at h
-      · intro k z h; simp [lookup] at h
-      · intro k z h; simp [lookup] at h
-      · intro k k' z z' h; simp [lookup] at h
+      exact same [] (by simp [step, hck']) (fun _ => rfl) (by simp) (by simp)
+  | sweep keep =>
+    have hstep : step s (.sweep keep)
+        = ({ s with sessions := s.sessions.filter (fun p => keep.contains p.1) }, []) := rfl
+    have look : ∀ k z, lookup (s.sessions.filter (fun p => keep.contains p.1)) k = some z →
+        lookup s.sessions k = some z := by
+      intro k z h
+      rw [lookup_filter_key (fun k => keep.contains k)] at h
+      split at h
+      · exact h
+      · simp at h
+    have hsub : (s.sessions.filter (fun p => keep.contains p.1)).Sublist s.sessions := List.filter_sublist
+    have hW' : W { s with sessions := s.sessions.filter (fun p => keep.contains p.1) } := by
+      refine ⟨?_, ?_, inv_of_step hW hstep, hW.nda, ?_, hW.pnd, ?_, ?_, hW.bnd, hW.nx⟩
+      · exact List.Nodup.sublist (hsub.map _) hW.nd
+      · intro k z h; exact hW.idk k z (look k z h)
+      · intro k z h; exact hW.ipa k z (look k z h)
+      · intro k z h; exact hW.ser k z (look k z h)
+      · intro k k' z z' h h'; exact hW.inj k k' z z' (look k z h) (look k' z' h')
     apply conclude hstep hW'
+    have hnp' : ∀ t ∈ (obsOf { s with sessions := s.sessions.filter (fun p => keep.contains p.1) } []).sent,
+        t.pads = false := by intro t ht; simp [obsOf] at ht
     apply finish hW'
-    · intro k z h; simp [lookup] at h
-    · intro k z h; simp [lookup] at h
-    · show s.alloc.length = cnt [] + (mn.stranded + holders mn.prev)
-      rw [hR.prev, holders_seen]
+    · intro k z h
+      rw [owner1_nopads mn _ _ hnp', hR.own k, look k z h]; rfl
+    · intro k z h he
+      apply auth0_sub_auth1
+      rw [auth0_nopads mn _ hnp']
+      exact hR.auth k z (look k z h) he
+    · show s.alloc.length = cnt (s.sessions.filter (fun p => keep.contains p.1))
+          + (mn.stranded + (holders mn.prev - holders ((sortedSess _).map toSeen)))
+      rw [hR.prev, holders_seen, holders_seen]
       have := hR.count
-      have h0 : cnt ([] : AMap Nat Sess) = 0 := rfl
-      rw [h0]
+      have hle : cnt (s.sessions.filter (fun p => keep.contains p.1)) ≤ cnt s.sessions := hsub.countP_le
+      show s.alloc.length = cnt (s.sessions.filter (fun p => keep.contains p.1))
+          + (mn.stranded + (cnt s.sessions - cnt (s.sessions.filter (fun p => keep.contains p.1))))
       omega
     · exact hR.cons
     · exact hR.rad
@@ -851,65 +850,65 @@ theorem step_ok {s : Srv} {mn : Mon} (hW : W s) (hR : Rel s mn) (i : In) : StepO
     · exact v3_nil hR hstep
   | padt m sid =>
     cases hg : ownerGate s m sid with
-    | none => exact same [] (by simp only [step, hg]) rfl (by simp) (by simp)
+    | none => exact same [] (by simp only [step, hg]) (fun _ => rfl) (by simp) (by simp)
     | some x =>
       obtain ⟨hx, _⟩ := Spec.C04.ownerGate_some hg
       obtain ⟨f1, f2, f3, f4, f5, f6, f7, f8, f9⟩ := release_facts s hW.nda x.serial
-      exact remove_core hW hR hx (outs := []) (by simp only [step, hg]) f1 f2 f3 f4 f5 f6 f7 f8 f9 rfl (by simp)
+      exact remove_core hW hR hx (outs := []) (by simp only [step, hg]) f1 f2 f3 f4 f5 f6 f7 f8 f9 (fun _ => rfl) (by simp)
   | lcp m sid k =>
     cases hg : ownerGate s m sid with
-    | none => exact same [] (by simp only [step, hg]) rfl (by simp) (by simp)
+    | none => exact same [] (by simp only [step, hg]) (fun _ => rfl) (by simp) (by simp)
     | some x =>
       obtain ⟨hx, _⟩ := Spec.C04.ownerGate_some hg
       cases k with
-      | creq => exact same [.lcpack sid x.mac] (by simp only [step, hg]) rfl (by simp [toSent, plainSent]) (by simp [toSent, plainSent])
-      | cnak => exact same [.lcpreq sid x.mac] (by simp only [step, hg]) rfl (by simp [toSent, plainSent]) (by simp [toSent, plainSent])
-      | echo => exact same [.lcperep sid x.mac] (by simp only [step, hg]) rfl (by simp [toSent, plainSent]) (by simp [toSent, plainSent])
+      | creq => exact same [.lcpack sid x.mac] (by simp only [step, hg]) (fun _ => rfl) (by simp [toSent, plainSent]) (by simp [toSent, plainSent])
+      | cnak => exact same [.lcpreq sid x.mac] (by simp only [step, hg]) (fun _ => rfl) (by simp [toSent, plainSent]) (by simp [toSent, plainSent])
+      | echo => exact same [.lcperep sid x.mac] (by simp only [step, hg]) (fun _ => rfl) (by simp [toSent, plainSent]) (by simp [toSent, plainSent])
       | term =>
         obtain ⟨f1, f2, f3, f4, f5, f6, f7, f8, f9⟩ := release_facts s hW.nda x.serial
-        exact remove_core hW hR hx (outs := [.lcptack sid x.mac]) (by simp only [step, hg]) f1 f2 f3 f4 f5 f6 f7 f8 f9 rfl
+        exact remove_core hW hR hx (outs := [.lcptack sid x.mac]) (by simp only [step, hg]) f1 f2 f3 f4 f5 f6 f7 f8 f9 (fun _ => rfl)
           (by simp [toSent, plainSent])
       | cack =>
         have hnp : ∀ t ∈ ([] : List Out).filterMap toSent, t.pads = false ∧ t.ipcpAns = false := by simp
         refine update_core hW hR hx (s1 := s) (y := { x with state := .auth }) (outs := [])
           (by simp only [step, hg]) rfl rfl rfl rfl hW.nda (fun _ _ => rfl) rfl rfl (List.Perm.refl _) rfl rfl rfl
-          (hW.ipa sid x hx) ?_ rfl hnp
+          (hW.ipa sid x hx) ?_ (fun _ => rfl) hnp
         intro he
         apply auth0_sub_auth1
         rw [auth0_nopads mn _ (fun t ht => (hnp t ht).1)]
         exact hR.auth sid x hx he
   | ipcp m sid k =>
     cases hg : ownerGate s m sid with
-    | none => exact same [] (by simp only [step, hg]) rfl (by simp) (by simp)
+    | none => exact same [] (by simp only [step, hg]) (fun _ => rfl) (by simp) (by simp)
     | some x =>
       obtain ⟨hx, _⟩ := Spec.C04.ownerGate_some hg
       by_cases hau : x.authed = true
       · cases k with
         | creqIp =>
           refine same [if x.ip.isSome then .ipcpnak x.ip sid x.mac else .ipcpack sid x.mac]
-            (by simp only [step, hg, hau]; rfl) rfl ?_ ?_
+            (by simp only [step, hg, hau]; rfl) (fun _ => rfl) ?_ ?_
           · cases hip : x.ip <;> simp [toSent, plainSent]
           · cases hip : x.ip <;> simp [toSent, plainSent] <;> exact ⟨x, hx, hau⟩
         | creqDns =>
-          exact same [.ipcpnak none sid x.mac] (by simp only [step, hg, hau]; rfl) rfl
+          exact same [.ipcpnak none sid x.mac] (by simp only [step, hg, hau]; rfl) (fun _ => rfl)
             (by simp [toSent, plainSent]) (by simp [toSent, plainSent])
         | creqNone =>
-          refine same [.ipcpack sid x.mac] (by simp only [step, hg, hau]; rfl) rfl (by simp [toSent, plainSent]) ?_
+          refine same [.ipcpack sid x.mac] (by simp only [step, hg, hau]; rfl) (fun _ => rfl) (by simp [toSent, plainSent]) ?_
           simp [toSent, plainSent]; exact ⟨x, hx, hau⟩
         | cack =>
           have hnp : ∀ t ∈ ([] : List Out).filterMap toSent, t.pads = false ∧ t.ipcpAns = false := by simp
           refine update_core hW hR hx (s1 := s) (y := { x with state := .est }) (outs := [])
             (by simp only [step, hg, hau]; rfl) rfl rfl rfl rfl hW.nda (fun _ _ => rfl) rfl rfl (List.Perm.refl _) rfl rfl rfl
-            (hW.ipa sid x hx) ?_ rfl hnp
+            (hW.ipa sid x hx) ?_ (fun _ => rfl) hnp
           intro he
           apply auth0_sub_auth1
           rw [auth0_nopads mn _ (fun t ht => (hnp t ht).1)]
           exact hR.auth sid x hx he
       · have hau' : x.authed = false := by simpa using hau
-        exact same [] (by simp [step, hg, hau']) rfl (by simp) (by simp)
+        exact same [] (by simp [step, hg, hau']) (fun _ => rfl) (by simp) (by simp)
   | pap m sid pw r =>
     cases hg : ownerGate s m sid with
-    | none => exact same [] (by simp only [step, hg]) rfl (by simp) (by simp)
+    | none => exact same [] (by simp only [step, hg]) (fun _ => rfl) (by simp) (by simp)
     | some x =>
       obtain ⟨hx, hm⟩ := Spec.C04.ownerGate_some hg
       by_cases hok : papOk s pw r = true
@@ -923,7 +922,7 @@ theorem step_ok {s : Srv} {mn : Mon} (hW : W s) (hR : Rel s mn) (i : In) : StepO
         have hnp : ∀ t ∈ (if (poolAllocate s x.serial).2.isSome then [Out.papack sid x.mac, .ipcpreq sid x.mac]
              else [.papack sid x.mac]).filterMap toSent, t.pads = false ∧ t.ipcpAns = false := by
           split <;> simp [toSent, plainSent]
-        refine update_core hW hR hx hstep f1 f2 f3 f4 f5 f7 f8 ?_ f10 rfl rfl rfl f6 ?_ rfl hnp
+        refine update_core hW hR hx hstep f1 f2 f3 f4 f5 f7 f8 ?_ f10 rfl rfl rfl f6 ?_ (fun _ => rfl) hnp
         · rw [hW.ipa sid x hx]; exact f9
         · intro _
           -- the monitor, from its own records, also accepts this PAP exchange
@@ -957,7 +956,7 @@ theorem step_ok {s : Srv} {mn : Mon} (hW : W s) (hR : Rel s mn) (i : In) : StepO
           · rw [if_neg hc]; exact List.mem_cons_self
       · have hok' : papOk s pw r = false := by simpa using hok
         obtain ⟨f1, f2, f3, f4, f5, f6, f7, f8, f9⟩ := release_facts s hW.nda x.serial
-        exact remove_core hW hR hx (outs := [.papnak sid x.mac]) (by simp [step, hg, hok']) f1 f2 f3 f4 f5 f6 f7 f8 f9 rfl
+        exact remove_core hW hR hx (outs := [.papnak sid x.mac]) (by simp [step, hg, hok']) f1 f2 f3 f4 f5 f6 f7 f8 f9 (fun _ => rfl)
           (by simp [toSent, plainSent])
 
 
@@ -1000,15 +999,16 @@ theorem run_ok {s : Srv} {mn : Mon} (hW : W s) (hR : Rel s mn) (ins : List In) :
     · exact hQ v hv
     · exact h3 v hv
 
-theorem stranded_without_sweep (s : Srv) (mn : Mon) (ins : List In) (h : In.sweep ∉ ins) :
+theorem stranded_without_sweep (s : Srv) (mn : Mon) (ins : List In) (h : ∀ keep, In.sweep keep ∉ ins) :
     (monAfter s mn ins).stranded = mn.stranded := by
   induction ins generalizing s mn with
   | nil => rfl
   | cons i rest ih =>
-    simp only [List.mem_cons, not_or] at h
+    have h1 : ∀ keep, i ≠ In.sweep keep := fun k e => h k (by rw [e]; exact List.mem_cons_self)
+    have h2 : ∀ keep, In.sweep keep ∉ rest := fun k hm => h k (List.mem_cons_of_mem _ hm)
     simp only [monAfter]
-    rw [ih _ _ h.2]
-    show mn.stranded + sweptNow mn i = mn.stranded
-    cases i <;> first | rfl | exact absurd rfl h.1
+    rw [ih _ _ h2]
+    show mn.stranded + sweptNow mn _ i = mn.stranded
+    cases i <;> first | rfl | exact absurd rfl (h1 _)
 
 end Bng.Proof.PppoeMonitor
